@@ -84,6 +84,8 @@ struct Snap {
     userlk1: Vec<BigUint>,
     userlk2: Vec<BigUint>,
     pairlk: BigUint,
+    /// the owner's wallet: FIRST, SECOND, LP, LOCKED wrapping FIRST, LOCKED wrapping SECOND
+    owner_w: [BigUint; 5],
 }
 
 struct PairWorld {
@@ -269,6 +271,8 @@ impl PairWorld {
             s.userlk2.push(self.locked_of(u, 2));
         }
         s.lpc = lpc;
+        let oa = self.owner.clone();
+        s.owner_w = [self.bal(&oa, FIRST), self.bal(&oa, SECOND), self.bal(&oa, LP), self.locked_of(&oa, 1), self.locked_of(&oa, 2)];
         s.burn1 = &self.init1 - &tot1;
         s.burn2 = &self.init2 - &tot2;
         s
@@ -373,10 +377,17 @@ impl PairWorld {
             1 => "sl",
             _ => "other",
         };
+        // per-account ledger (model: Core/PairLedger.lean): the real ESDT balances of every user
+        // account and of the owner — FIRST, SECOND, LP, LOCKED wrapping FIRST, LOCKED wrapping SECOND
+        let mut accts: Vec<String> = (0..s.user1.len())
+            .map(|i| format!("{},{},{},{},{}", s.user1[i], s.user2[i], s.userlp[i], s.userlk1[i], s.userlk2[i]))
+            .collect();
+        accts.push(format!("{},{},{},{},{}", s.owner_w[0], s.owner_w[1], s.owner_w[2], s.owner_w[3], s.owner_w[4]));
         format!(
-            "r={},{} S={} bal={},{} lpc={} own={} coll={},{} burn={},{} ext={},{} st={} x1={} x2={} sp={} lock={},{},{} ep={} slk={},{}",
+            "r={},{} S={} bal={},{} lpc={} own={} coll={},{} burn={},{} ext={},{} st={} x1={} x2={} sp={} lock={},{},{} ep={} slk={},{} acct={}",
             s.r1, s.r2, s.s, s.bal1, s.bal2, s.lpc, s.own, s.coll1, s.coll2, s.burn1, s.burn2,
-            s.ext1, s.ext2, st, x1, x2, sp, s.lock_deadline, s.lock_unlock, lsc, s.epoch, s.slk1, s.slk2
+            s.ext1, s.ext2, st, x1, x2, sp, s.lock_deadline, s.lock_unlock, lsc, s.epoch, s.slk1, s.slk2,
+            accts.join(";")
         )
     }
 
